@@ -88,6 +88,21 @@ def parent(chk, F):
     if inner is None:
         raise AnchorLost("no loop in run_task receives a request, writes it and sends a reply")
     FK = "rink_sandbox::parent::Sandbox::run_task"
+    # `if !flag { continue; } <rest>` is `if flag { <rest> }`: the request loop is read in the second form
+    ib_ = inner["body"]
+    if ib_.get("k") == "Block":
+        sts = list(ib_["stmts"])
+        for idx, st_ in enumerate(sts):
+            e_ = st_.get("e") if st_.get("sk") in ("expr", "semi") else None
+            if e_ and e_.get("k") == "If" and e_.get("else") is None and e_["cond"].get("k") == "Unary" and e_["cond"].get("op") == "Not" and H.local_name(e_["cond"]["a"]):
+                tb = e_["then"]
+                only = [n for k_, n in H.stmts_of(tb)]
+                if len(only) == 1 and only[0].get("k") == "Continue":
+                    rest = {"k": "Block", "stmts": sts[idx + 1:], "expr": ib_.get("expr"), "line": e_.get("line")}
+                    new_if = {"k": "If", "cond": e_["cond"]["a"], "then": rest, "else": None, "line": e_.get("line")}
+                    inner = dict(inner)
+                    inner["body"] = {"k": "Block", "stmts": sts[:idx] + [{"sk": "semi", "e": new_if, "line": e_.get("line")}], "expr": None, "line": ib_.get("line")}
+                    break
     # the roles are found by what the variables do, not by what they are called
     def recv_of(name):
         ms = [m for m in H.method_calls(inner["body"], name) if H.local_name(m["recv"])]
@@ -152,6 +167,18 @@ def parent(chk, F):
                                 b = b.get("expr") or {}
                             txt = H.expr_str(b, 80).replace(" ", "")
                             handled = handled or txt.startswith("Result::Ok(Result::Err(") or txt.startswith("Ok(Err(")
+        if wname and not wtry and not handled:
+            # the same as `if let Err(err) = written { Ok(Err(err)) } else { .. }`
+            for mm in hir_walk(inner["body"]):
+                if mm.get("k") == "If" and mm["cond"].get("k") == "Let" and (H.local_name(mm["cond"]["init"]) or (None, None))[1] == wlid \
+                        and H.pat_str(mm["cond"]["pat"]).startswith("Result::Err("):
+                    b = mm["then"]
+                    while b.get("k") == "Block" and not b["stmts"] and b.get("expr"):
+                        b = b["expr"]
+                    if b.get("k") == "Block":
+                        b = b.get("expr") or {}
+                    txt = H.expr_str(b, 80).replace(" ", "")
+                    handled = handled or txt.startswith("Result::Ok(Result::Err(") or txt.startswith("Ok(Err(")
         chk.decide(handled, "request-loop", FK, "write-failure-is-answered", "%s:%d" % (file, ws[0][1]),
                    "a failed write of the request becomes this request's error reply (Ok(Err(err)) -> the stream-error arm: kill and respawn)",
                    "the result of writing the request is %s: when the child has died while idle the task ends, this request gets a closed-channel "
@@ -325,7 +352,8 @@ def parent(chk, F):
         uses = []
         for mc in H.method_calls(inner["body"]):
             if mc["name"] in ("read_async", "write_async", "read_sync", "write_sync") and mc["args"]:
-                uses += [n for n in hir_walk(mc["args"][0]) if n.get("k") == "Path" and n["r"].get("res") == "local" and n["r"]["name"] == bname]
+                # (the handle is whichever argument it is: the helpers' parameter order is theirs to choose)
+                uses += [n for a_ in mc["args"] for n in hir_walk(a_) if n.get("k") == "Path" and n["r"].get("res") == "local" and n["r"]["name"] == bname]
         chk.decide(bool(uses) and all(u["r"]["lid"] == hlid for u in uses), "recovery-arms", FK, "uses-fresh-" + hname, "",
                    "requests use the %s of the current child (%d uses)" % (hname, len(uses)),
                    "a %s handle other than the current child's is used in the request loop" % hname)
